@@ -17,7 +17,7 @@ import (
 
 func init() {
 	Registry["C20"] = Set{
-		Explanation: "Decides structural clauses of the cron scheduler: K1 field plumbing — crontab field i (minute, hour, day, month, weekday) is parsed with the descriptor of unit i and stored in the list IsRunAt consults for that unit (minute/hour/month: the AND list; day and weekday: their own OR lists), each descriptor carries the mask type and the value range of its unit, each mask type is tested against the matching time.Time accessor, and every settable bit index is below the type nibble (bit 60); the day/weekday combination rule is AND with each wildcard and OR when both are restricted; K2 AddJob returns the parser's error before the job is inserted and refuses a taken name; K3 the action is dominated by the 'disabled' test of the very job popped, and RemoveJob/DisableJob set that flag; K4 every path through the minute callback that is not the node-down exit re-arms the timer and reschedules (the recognised clock-skew early return is listed, not armed: it cannot be exhibited without controlling the clock); K5 a job enters the spool for a minute at most once: the push is behind a per-job compare-and-swap that the callback clears when it takes the job out. Added while probing: K1 the day/weekday combination is verified as a truth table by exhaustive abstract execution of cronSpecMask.IsRunAt over {list empty, list matches}; an empty list matches; K3 EnableJob clears the disabled flag; K6 the mask evaluation uses calendar operations only (no Time.Add/Sub/Truncate). K7 the constructor initialises the 'next minute' field with the minute the timer is armed for. K8 no critical section of the cron's lock calls anything that takes that lock again. K9 lock pairing — in every function that touches the cron lock a forward data flow over (held read/write, unlock deferred) shows: no return while the lock is held without a deferred unlock, no unlock (explicit or deferred) of a lock that is not held or of the other kind, no second lock (a leaked lock blocks every later job operation and the minute tick for ever, an unlock of an unlocked mutex is a fatal error that takes the node down). K5 also: every job popped from the spool has its flag cleared on every path of that iteration (a job popped while disabled included). K10 the schedule scans advance by exactly one minute per iteration from the loop variable itself; no skip-ahead. K11 the minute callback pops the spool and stores the next minute inside ONE write-locked section of the cron lock (AddJob/EnableJob/UpdateJob decide under that lock whether the job belongs to the minute being fired: with the spool emptied outside the lock a job enabled in between was queued for the minute already taken out and fired for a minute its specification does not denote); K4 accepts the reschedule walk inlined in that section.",
+		Explanation: "Decides structural clauses of the cron scheduler: K1 field plumbing — crontab field i (minute, hour, day, month, weekday) is parsed with the descriptor of unit i and stored in the list IsRunAt consults for that unit (minute/hour/month: the AND list; day and weekday: their own OR lists), each descriptor carries the mask type and the value range of its unit, each mask type is tested against the matching time.Time accessor, and every settable bit index is below the type nibble (bit 60); the day/weekday combination rule is AND with each wildcard and OR when both are restricted; K2 AddJob returns the parser's error before the job is inserted and refuses a taken name; K3 the action is dominated by the 'disabled' test of the very job popped, and RemoveJob/DisableJob set that flag; K4 every path through the minute callback that is not the node-down exit re-arms the timer and reschedules (the recognised clock-skew early return is listed, not armed: it cannot be exhibited without controlling the clock); K5 a job enters the spool for a minute at most once: the push is behind a per-job compare-and-swap that the callback clears when it takes the job out. Added while probing: K1 the day/weekday combination is verified as a truth table by exhaustive abstract execution of cronSpecMask.IsRunAt over {list empty, list matches}; an empty list matches; K3 EnableJob clears the disabled flag; K6 the mask evaluation uses calendar operations only (no Time.Add/Sub/Truncate). K7 the constructor initialises the 'next minute' field with the minute the timer is armed for. K8 no critical section of the cron's lock calls anything that takes that lock again. K9 lock pairing — in every function that touches the cron lock a forward data flow over (held read/write, unlock deferred) shows: no return while the lock is held without a deferred unlock, no unlock (explicit or deferred) of a lock that is not held or of the other kind, no second lock (a leaked lock blocks every later job operation and the minute tick for ever, an unlock of an unlocked mutex is a fatal error that takes the node down). K5 also: every job popped from the spool has its flag cleared on every path of that iteration (a job popped while disabled included). K10 the schedule scans advance by exactly one minute per iteration from the loop variable itself; no skip-ahead. K11 the minute callback pops the spool and stores the next minute inside ONE write-locked section of the cron lock (AddJob/EnableJob/UpdateJob decide under that lock whether the job belongs to the minute being fired: with the spool emptied outside the lock a job enabled in between was queued for the minute already taken out and fired for a minute its specification does not denote); K4 accepts the reschedule walk inlined in that section. K12 every range loop of the field parser whose bounds come from the text runs only behind the false edge of a comparison 'start > end' of those very bounds whose true edge returns an error (a reversed stepped range sets no bit).",
 		NotDecided: []string{
 			"that the compiled masks denote exactly the crontab semantics for every spec and minute (lists, ranges, steps, L, xL, x#n)",
 			"time zones and daylight-saving transitions beyond the rule that the mask evaluation uses calendar operations only; the clock-skew early return of the minute callback (listed, not armed)",
@@ -818,6 +818,7 @@ func runC20(p *load.Program, r *core.Report) {
 			}
 		}
 	}
+	c20RangeBoundsChecked(p, r)
 }
 
 // c20ScanStep: K10 — the run times a job reports are found by walking the minutes of the period:
@@ -880,3 +881,117 @@ func derefRecv(f *ssa.Function) types.Type {
 }
 
 var _ = load.Module
+
+// c20RangeBoundsChecked: K12 — a crontab range a-b (with or without a step) denotes the values from a
+// to b. The loop that sets the bits `for x := start; x <= end; x += step` sets nothing when start > end:
+// the spec would be accepted and the job would silently never run for that field (or AddJob would
+// panic on the empty mask). Every such loop whose bounds are both parsed from the text is reached
+// only behind the false edge of a comparison `start > end` of those very two values whose true edge
+// returns an error.
+func c20RangeBoundsChecked(p *load.Program, r *core.Report) {
+	rule := "C20.K12 reversed-range-refused"
+	r.Floor(rule, 1)
+	f := p.Func("node", "", "cronParseSpecField")
+	if f == nil {
+		r.Unk(rule, "C20.K12|fn", "", "", "the field parser is found", "not found")
+		return
+	}
+	parse := p.Func("node", "", "cronParseInt")
+	fromText := func(v ssa.Value) bool {
+		seen := map[ssa.Value]bool{}
+		var w func(x ssa.Value) bool
+		w = func(x ssa.Value) bool {
+			if x == nil || seen[x] {
+				return false
+			}
+			seen[x] = true
+			switch y := x.(type) {
+			case *ssa.Extract:
+				if c, ok := y.Tuple.(*ssa.Call); ok && parse != nil && staticCallee(c.Common()) == parse {
+					return true
+				}
+			case *ssa.Phi:
+				for _, e := range y.Edges {
+					if w(e) {
+						return true
+					}
+				}
+			}
+			return false
+		}
+		return w(v)
+	}
+	n := 0
+	eachInstr(f, func(in ssa.Instruction) {
+		iff, ok := in.(*ssa.If)
+		if !ok {
+			return
+		}
+		b, ok := iff.Cond.(*ssa.BinOp)
+		if !ok || b.Op != token.LEQ {
+			return
+		}
+		ph, ok := b.X.(*ssa.Phi)
+		if !ok || len(sccOf(iff.Block())) == 0 {
+			return
+		}
+		// the loop variable: one edge from outside the loop (the start), one from inside
+		var start ssa.Value
+		for i, e := range ph.Edges {
+			// the entry edge: its predecessor is not dominated by the loop header (a back edge is)
+			if !ph.Block().Dominates(ph.Block().Preds[i]) {
+				start = e
+			}
+		}
+		end := b.Y
+		if start == nil || !fromText(start) || !fromText(end) {
+			return
+		}
+		n++
+		fn := fname(f)
+		key := fmt.Sprintf("C20.K12|%s|range-loop#%d", fn, n)
+		inst := "the range loop runs only after 'start > end' of its own two bounds was answered with an error"
+		guarded := false
+		eachInstr(f, func(x ssa.Instruction) {
+			c, ok := x.(*ssa.BinOp)
+			if !ok {
+				return
+			}
+			var tru, fls []Edge
+			t, fl, complete := boolEdges(c)
+			if !complete {
+				return
+			}
+			switch {
+			case c.Op == token.GTR && c.X == start && c.Y == end, c.Op == token.LSS && c.X == end && c.Y == start:
+				tru, fls = t, fl
+			case c.Op == token.LEQ && c.X == start && c.Y == end && x != ssa.Instruction(b), c.Op == token.GEQ && c.X == end && c.Y == start:
+				tru, fls = fl, t
+			default:
+				return
+			}
+			if !edgesDominate(fls, in) {
+				return
+			}
+			// the reversed edge returns an error
+			idx := errResultIndex(f)
+			bad := false
+			for _, rt := range walkAvoid(edgePoints(tru), nil, isReturn) {
+				if idx >= 0 && errKind(rt.(*ssa.Return).Results[idx]) == "nil" {
+					bad = true
+				}
+			}
+			if reaches(edgePoints(tru), nil, func(y ssa.Instruction) bool { return y == in }) != nil {
+				bad = true
+			}
+			if !bad {
+				guarded = true
+			}
+		})
+		if guarded {
+			r.OK(rule, key, fn, p.Pos(in.Pos()), inst, "comparison of the loop's start and end dominates the loop; the reversed edge returns an error")
+		} else {
+			r.Bad(rule, key, fn, p.Pos(in.Pos()), inst, "no comparison of these two bounds guards the loop (a test of one branch's local value does not cover the other): a reversed range such as 50-10/5 is accepted and sets no bit — the job never runs for it, or AddJob panics on the empty mask")
+		}
+	})
+}
